@@ -200,8 +200,15 @@ void mzd_row_clear_offset(mzd_t *M, rci_t row, rci_t coloffset) {
   } else {
     temp = 0;
   }
-  truerow[startblock] = temp;
-  for (wi_t i = startblock + 1; i < M->width; ++i) { truerow[i] = 0; }
+  /* bits beyond the last column belong to the parent of a window: keep them */
+  word const mask_end = M->high_bitmask;
+  if (startblock == M->width - 1) {
+    truerow[startblock] = temp | (truerow[startblock] & ~mask_end);
+  } else {
+    truerow[startblock] = temp;
+    for (wi_t i = startblock + 1; i < M->width - 1; ++i) { truerow[i] = 0; }
+    truerow[M->width - 1] &= ~mask_end;
+  }
 
   __M4RI_DD_ROW(M, row);
 }
